@@ -451,7 +451,7 @@ class Interp:
 
     # -- pipe ------------------------------------------------------------------------------------
     async def op_XFER(self, act, pc, p, total, limit=None):
-        await self.ctx.objs[p].transfer(total=total, throughput=limit)
+        await self.ctx.objs[p].transfer(total=num(total), throughput=limit)
 
     # -- scopes ----------------------------------------------------------------------------------
     async def _scope(self, act, pc, name, scope, body):
